@@ -177,9 +177,9 @@ SPEC = {
     'deciding': ['eigh.lower-bound', 'eigh.upper-bound', 'expm-h.norm-preserved', 'expm-h.exact-when-exhausted', 'expm-g.exact-when-exhausted',
                  'eigh.exhausted-reaches-min-reachable', 'eigh.ritz-vectors-orthonormal', 'eigh.ritz-rayleigh'],
     'workloads': [
-        Workload('grid', grid_case, quick=len(GRID) * 6, thorough=len(GRID) * 300),
-        Workload('large', large_case, quick=150, thorough=5000),
-        Workload('f6', f6_case, quick=6, thorough=60),
+        Workload('grid', grid_case, quick=len(GRID) * 6, thorough=len(GRID) * 3000),
+        Workload('large', large_case, quick=450, thorough=40000),
+        Workload('f6', f6_case, quick=6, thorough=240),
     ],
     'shards': {'quick': 1, 'thorough': 16},
     'assumptions': ['numpy eigh and scipy expm on the dense matrix are the references'],
